@@ -3,6 +3,7 @@ every rule sees one shape (source positions are kept for the reports).
 
   two-armed if      `if not c: A else: B`        ->  `if c: B else: A`          (no elif chains)
   comparisons       `a > b`, `a >= b`            ->  `b < a`, `b <= a`          (single operator)
+  return temps      `t = e; return t`            ->  `return e`                 (t used nowhere else)
   calls             f(a, y=c, x=b)               ->  f(a, b, c)                 (callee resolved in the package; the
                                                                                    parameter names are kept on the node)
 """
@@ -28,8 +29,47 @@ class Shape(ast.NodeTransformer):
         return n
 
 
+def inline_return_temps(tree):
+    """`t = e` immediately followed by `return t` -> `return e` (t used nowhere else in the function than in such pairs)"""
+    for fn in [n for n in ast.walk(tree) if isinstance(n, (ast.FunctionDef, ast.AsyncFunctionDef))]:
+        uses = {}
+        for n in ast.walk(fn):
+            if isinstance(n, ast.Name):
+                uses[n.id] = uses.get(n.id, 0) + 1
+
+        def blocks():
+            for node in ast.walk(fn):
+                for fld in ('body', 'orelse', 'finalbody'):
+                    blk = getattr(node, fld, None)
+                    if isinstance(blk, list) and len(blk) >= 2 and isinstance(blk[0], ast.stmt):
+                        yield blk
+
+        def is_pair(a, r):
+            return isinstance(a, ast.Assign) and len(a.targets) == 1 and isinstance(a.targets[0], ast.Name) and \
+                isinstance(r, ast.Return) and isinstance(r.value, ast.Name) and r.value.id == a.targets[0].id
+        pairs = {}
+        for blk in blocks():
+            for a, r in zip(blk, blk[1:]):
+                if is_pair(a, r):
+                    pairs[a.targets[0].id] = pairs.get(a.targets[0].id, 0) + 1
+        ok = {t for t, k in pairs.items() if uses.get(t, 0) == 2 * k}
+        if not ok:
+            continue
+        for blk in list(blocks()):
+            i = 0
+            while i < len(blk) - 1:
+                a, r = blk[i], blk[i + 1]
+                if is_pair(a, r) and a.targets[0].id in ok:
+                    new = ast.copy_location(ast.Return(value=a.value), a)
+                    new._inlined_temp = a.targets[0].id
+                    blk[i:i + 2] = [new]
+                else:
+                    i += 1
+    return tree
+
+
 def shape(tree):
-    return ast.fix_missing_locations(Shape().visit(tree))
+    return ast.fix_missing_locations(inline_return_temps(Shape().visit(tree)))
 
 
 def positional_calls(repo):
